@@ -55,7 +55,7 @@ pull_api  { listen "127.0.0.1:%d" grpc_listen "127.0.0.1:%d" auth token "raw:g1"
 admin_api { listen "127.0.0.1:%d" }
 defaults {
   egress { https_only off redirects off dns_rebind_protection off }
-  deliver { retry exponential max 1000000 base 1s cap 1s jitter 0 timeout 10s concurrency 1 }
+  deliver { retry exponential max 1000000 base 1s cap 1s jitter 0 timeout 10s concurrency 4 }
 }
 /p  { %[5]s pull { path /e } }
 /p8 { %[5]s max_body 8 pull { path /e8 } }
